@@ -329,6 +329,10 @@ package bgp
 //@   ensures typeOf(result) == (*RouteDistinguisherUnknown) ==> len(result.(*RouteDistinguisherUnknown).Value) == 6 && (forall k int :: 0 <= k && k < 6 ==> result.(*RouteDistinguisherUnknown).Value[k] == data[2+k])
 
 //@ func (*LabeledIPAddrPrefix).decodeFromBytes
+//@   tag C05 C06
+// from C06 "no route is ever installed ... carrying an attribute that arrived malformed": a labelled-unicast NLRI
+// carries at least one label (RFC 8277 2.2); one without can never be sent on ("empty MPLS label stack")
+//@   at-call l.decodePrefix( requires len(l.Labels.Labels) > 0
 //@   modifies l.*
 //@   ensures err != nil ==> freshMsgErr(err)
 //@ func (*LabeledVPNIPAddrPrefix).decodeFromBytes
